@@ -49,6 +49,14 @@ class ExtractError(Exception):
 
 def read_repo(rel):
     p = os.path.join(REPO, rel)
+    if rel.startswith('registry:'):
+        # source of a locked dependency, e.g. `registry:unidiff-0.4.0/src/lib.rs` (stand-in types
+        # of external crates are pasted from it, DESIGN 2.9); independent of VERIF_REPO
+        import glob
+        hits = sorted(glob.glob(os.path.join(os.path.expanduser('~/.cargo/registry/src'), '*', rel[len('registry:'):])))
+        if len(hits) != 1:
+            raise ExtractError('cannot resolve %s: %d candidates' % (rel, len(hits)))
+        p = hits[0]
     try:
         with open(p, encoding='utf-8') as f:
             return f.read()
@@ -183,6 +191,35 @@ def strip_vis_and_attrs(s):
     return ''.join(out)
 
 
+def pubify_item(s):
+    """Rule E11 (second half): after visibility qualifiers were stripped, make the item and its
+    named fields `pub` so that the (pub) specification functions of the generated single-module
+    file may mention them. Visibility has no run-time meaning."""
+    toks = rustlex.tokens(s)
+    ins = []
+    depth = angle = 0
+    prev = None
+    for k, (t, st, en) in enumerate(toks):
+        if depth == 0 and t in ('struct', 'enum', 'const', 'type') and prev != 'pub':
+            ins.append(st)
+        if t in '{([':
+            depth += 1
+        elif t in '})]':
+            depth -= 1
+        elif t == '<':
+            angle += 1
+        elif t == '>' and prev != '-':
+            angle = max(0, angle - 1)
+        elif (depth == 1 and angle == 0 and prev in ('{', ',') and re.match(r'^[A-Za-z_]', t)
+              and k + 1 < len(toks) and toks[k + 1][0] == ':' and toks[0][0] == 'struct'
+              and not (k + 2 < len(toks) and toks[k + 2][0] == ':')):
+            ins.append(st)
+        prev = t
+    for pos in sorted(ins, reverse=True):
+        s = s[:pos] + 'pub ' + s[pos:]
+    return s
+
+
 def replace_macros(s, name, to):
     """Replace every `name!( ... )` (balanced) by `to`."""
     n = 0
@@ -239,6 +276,11 @@ def apply_ops(unit, fn_text, log):
             if 'find' in a:
                 spans = rustlex.find_tokens(s, a['find'])
                 want = a.get('count', '1')
+                if not spans and a.get('optional') == '1':
+                    # optional=1: a rewrite to a shim that is skipped when the std call it replaces is
+                    # gone; the text then reaches the verifier as it is (and fails or is rejected there)
+                    log.append({'unit': unit.id, 'rule': rule, 'what': 'optional anchor `%s` absent, text left unchanged' % a['find']})
+                    continue
                 if want == 'all':
                     if not spans:
                         raise ExtractError('%s: anchor not found: %s' % (unit.id, a['find']))
@@ -318,6 +360,91 @@ def apply_ops(unit, fn_text, log):
                                         (', ' + a['extra']) if 'extra' in a else '')
                 s = s[:recv_start] + call + s[after:]
             log.append({'unit': unit.id, 'rule': a.get('rule', 'E3'), 'what': 'RECV%s..%s -> %s(RECV, ..)' % (a['find'], a.get('suffix', ''), a['to'])})
+        elif kind == 'forlines':
+            # Rule E3: `for (A, B) in EXPR.lines().enumerate() {`  =>
+            #   `let VAR = verif_lines_enumerate(EXPR); for pair in it: VAR <payload> { let (A, B) = pair;`
+            spans = rustlex.find_tokens(s, '.lines().enumerate()')
+            if len(spans) != 1:
+                raise ExtractError('%s: forlines: `.lines().enumerate()` found %d times' % (unit.id, len(spans)))
+            st, en = spans[0]
+            masked = rustlex.mask(s)
+            fm = None
+            for m in re.finditer(r'\bfor\s*\(', masked[:st]):
+                fm = m
+            if fm is None:
+                raise ExtractError('%s: forlines: no `for (` before the chain' % unit.id)
+            pc = rustlex.match_close(masked, fm.end() - 1)
+            pat = s[fm.end() - 1:pc + 1]
+            m_in = re.compile(r'\s*in\b').match(masked, pc + 1)
+            if not m_in:
+                raise ExtractError('%s: forlines: expected `in` after the pattern' % unit.id)
+            expr = s[m_in.end():st].strip()
+            k = en
+            while masked[k].isspace():
+                k += 1
+            if masked[k] != '{':
+                raise ExtractError('%s: forlines: expected `{` after the chain' % unit.id)
+            var = a.get('var', 'verif_ls')
+            if a.get('style') == 'while':
+                # for-loops with `continue` are not supported by Verus: index-based while loop, the
+                # index is advanced before the body so that `continue` keeps its meaning.
+                new_head = ('let %s = verif_lines_enumerate(%s);\nlet mut verif_i: usize = 0;\nwhile verif_i < %s.len()\n%s{\nlet %s = %s[verif_i];\nverif_i = verif_i + 1;'
+                            % (var, ' '.join(expr.split()), var, payload, pat, var))
+            else:
+                new_head = ('let %s = verif_lines_enumerate(%s);\nfor verif_pair in it: %s\n%s{\nlet %s = verif_pair;'
+                            % (var, ' '.join(expr.split()), var, payload, pat))
+            s = s[:fm.start()] + new_head + s[k + 1:]
+            log.append({'unit': unit.id, 'rule': 'E3', 'what': '`for %s in E.lines().enumerate()` -> loop over verif_lines_enumerate(E) (shim: (k, lines(E)[k]) in order)' % pat})
+        elif kind == 'letchain':
+            # Rule E8: `if let PAT = E && COND { BODY }` (no else)  =>  `if let PAT = E { if COND { BODY } }`
+            spans = rustlex.find_tokens(s, a['find'])
+            if len(spans) != 1:
+                raise ExtractError('%s: letchain anchor `%s` found %d times' % (unit.id, a['find'], len(spans)))
+            st, en = spans[0]
+            if not s[st:en].rstrip().endswith('&&'):
+                raise ExtractError('%s: letchain anchor must end with &&' % unit.id)
+            masked = rustlex.mask(s)
+            k, pd = en, 0
+            while k < len(masked):
+                ch = masked[k]
+                if ch in '([':
+                    pd += 1
+                elif ch in ')]':
+                    pd -= 1
+                elif ch == '{' and pd == 0:
+                    break
+                k += 1
+            cb = rustlex.match_close(masked, k)
+            if re.match(r'\s*else\b', masked[cb + 1:]):
+                raise ExtractError('%s: letchain with else is not pure sugar' % unit.id)
+            head = s[st:en].rstrip()[:-2].rstrip()
+            cond = s[en:k].strip()
+            s = s[:st] + head + ' { if ' + cond + ' ' + s[k:cb + 1] + ' }' + s[cb + 1:]
+            log.append({'unit': unit.id, 'rule': 'E8', 'what': 'let-chain `%s ..` -> nested if' % ' '.join(a['find'].split())})
+        elif kind == 'whilelet':
+            # Rule E6 (pure sugar): `while let PAT = EXPR { BODY }`  =>
+            #   `loop <payload: invariant/decreases> { <pre> match EXPR { PAT => { BODY } _ => { break; } } }`
+            # `find` is the loop head up to (not including) its `{`; BODY is kept verbatim; `pre=<<..>>`
+            # is optional ghost text placed before the `match`.
+            spans = rustlex.find_tokens(s, a['find'])
+            if len(spans) != 1:
+                raise ExtractError('%s: whilelet anchor `%s` found %d times' % (unit.id, a['find'], len(spans)))
+            st, en = spans[0]
+            masked = rustlex.mask(s)
+            m_head = re.compile(r'while\s+let\b').match(masked, st)
+            eq = masked.find('=', st, en)
+            if not m_head or eq < 0:
+                raise ExtractError('%s: whilelet anchor must be `while let PAT = EXPR`' % unit.id)
+            pat, expr = s[m_head.end():eq].strip(), s[eq + 1:en].strip()
+            k = en
+            while masked[k].isspace():
+                k += 1
+            if masked[k] != '{':
+                raise ExtractError('%s: whilelet: expected `{` after the loop head' % unit.id)
+            cb = rustlex.match_close(masked, k)
+            s = (s[:st] + 'loop\n' + payload + '{ ' + a.get('pre', '') + '\nmatch ' + expr + ' { ' + pat + ' => '
+                 + s[k:cb + 1] + ' _ => { break; } } }' + s[cb + 1:])
+            log.append({'unit': unit.id, 'rule': 'E6', 'what': '`while let %s = %s` -> loop { match .. { %s => body, _ => break } }' % (pat, expr, pat)})
         elif kind == 'closure':
             # Closure literal -> same closure with typed parameters, named result and contract
             # (rule E12). The closure *body* is kept verbatim; an expression body gets braces.
@@ -353,6 +480,29 @@ def apply_ops(unit, fn_text, log):
             head = a['params'] + ' -> (' + a['ret'] + ')\n' + payload.rstrip('\n') + '\n'
             s = s[:st] + head + body_txt + s[be:]
             log.append({'unit': unit.id, 'rule': 'E12', 'what': 'closure `%s` given contract (%s)' % (a['find'], a['ret'])})
+        elif kind == 'wrap':
+            # Bracketed expression -> shim call, inner text kept verbatim:
+            #   `<find tokens, the last one an opening bracket> INNER <matching closer>`  =>  `<to> INNER <close>`
+            # e.g. find=<<text[..>> to=<<verif_str_prefix(text.as_str(),>> close=<<)>> turns `text[..n + 1]`
+            # into `verif_str_prefix(text.as_str(), n + 1)`; INNER still comes from /repo.
+            spans = rustlex.find_tokens(s, a['find'])
+            want = int(a.get('count', '1'))
+            if len(spans) != want:
+                raise ExtractError('%s: wrap anchor `%s` found %d times, expected %d' % (unit.id, a['find'], len(spans), want))
+            for st, en in reversed(spans):
+                masked = rustlex.mask(s)
+                if masked[en - 1] not in '([{':
+                    raise ExtractError('%s: wrap anchor must end with an opening bracket' % unit.id)
+                cb = rustlex.match_close(masked, en - 1)
+                inner_from = en
+                if 'skip' in a:
+                    # tokens that must directly follow the bracket and are dropped (e.g. the `..` of `[..n]`)
+                    sk = rustlex.find_tokens(s, a['skip'], en, cb)
+                    if not sk or s[en:sk[0][0]].strip():
+                        raise ExtractError('%s: wrap: `%s` does not follow the bracket' % (unit.id, a['skip']))
+                    inner_from = sk[0][1]
+                s = s[:st] + a['to'] + s[inner_from:cb] + a.get('close', ')') + s[cb + 1:]
+            log.append({'unit': unit.id, 'rule': a.get('rule', 'E13'), 'what': '`%s INNER %s` x%d -> `%s INNER %s`' % (a['find'], {'(': ')', '[': ']', '{': '}'}[a['find'].rstrip()[-1]], want, a['to'], a.get('close', ')'))})
         else:
             raise ExtractError('unknown op ' + kind)
     return s
@@ -437,7 +587,7 @@ def expand(group_path):
             src = read_repo(a['file'])
             sources.add(a['file'])
             s, e = find_item(src, a['kind'], a['name'])
-            txt = strip_vis_and_attrs(src[s:e])
+            txt = pubify_item(strip_vis_and_attrs(src[s:e]))
             # struct fields need to be visible in spec fns of the same module: keep private, fine
             first = len(out) + 1
             emit(txt)
@@ -470,7 +620,7 @@ def expand(group_path):
                     wrapper, i = payload_from(i + 1)
                 elif w2 == 'tail':
                     tail, i = payload_from(i + 1)
-                elif w2 in ('edit', 'macro', 'dropcall', 'chain', 'closure'):
+                elif w2 in ('edit', 'macro', 'dropcall', 'chain', 'closure', 'forlines', 'letchain', 'wrap', 'whilelet'):
                     pl, i = payload_from(i + 1)
                     unit.ops.append((w2, parse_kv(r2), pl))
                 else:
